@@ -183,7 +183,9 @@ def random_concurrent(rng, kind, k, per):
     streams = [1, 2, 3]
     steps = []
     ident = 0
-    for phase in range(rng.choice([1, 2])):
+    phases = rng.choice([1, 2])
+    closed = False
+    for phase in range(phases):
         progs = []
         for g in range(k):
             prog = []
@@ -200,9 +202,15 @@ def random_concurrent(rng, kind, k, per):
                     prog.append({"a": "setrate", "rate": nr * 1000})
                     need.setrate(nr)
             progs.append(prog)
+        if phase == phases - 1 and rng.random() < 0.25:
+            # Close races with the writers: what was accepted before it may or may not come out, nothing is owed after
+            progs[k - 1].insert(rng.randrange(len(progs[k - 1]) + 1), {"a": "close"})
+            closed = True
         steps.append({"a": "par", "progs": progs})
-        steps.append({"a": "quiesce", "wait": need.wait()})
-    steps.append({"a": "close"})
+        if not closed:
+            steps.append({"a": "quiesce", "wait": need.wait()})
+    if not closed:
+        steps.append({"a": "close"})
     return {"kind": kind, "rate": rate * 1000, "ival": ival, "qsize": 4096, "streams": streams, "steps": steps}
 
 
